@@ -513,7 +513,7 @@ def replaceElems (M : Str → Pat) (r : Repl) (elems : Sl) : Except Err Sl :=
   if r.orig.isEmpty then .ok elems
   else
     match M r.orig with
-    | .panic => .error .panic
+    | .panic => if elems.toList.isEmpty then .ok (some []) else .error .panic   -- MustCompile runs per element
     | .err => .ok (some elems.toList)             -- findAllIndex returns nil: every element is copied
     | .ok m => .ok (some (elems.toList.map fun e => spliceLocs e r.with_ 0 (findAll m e r.all)))
 
